@@ -154,15 +154,16 @@ def TableExt (t t' : Table) : Prop :=
         index — and resolving leaves the table untouched;
     (2) resolving any name (this may cache a builtin) extends the table;
     (3) declaring another name keeps every binding; (4) declaring (`:=`, `var`, `const`, `param`)
-        a name the root table already holds creates no new symbol: `DefineLocal` answers "exists"
-        and the compiler reports the redeclaration;
+        a name the root table already binds (not the entry cached for a builtin that was merely
+        used) creates no new symbol: `DefineLocal` answers "exists" and the compiler reports the
+        redeclaration;
     (5) a disabled builtin that is not shadowed does not resolve, before and after any resolve;
     (6) `updateMaxDefs` never lowers `maxDefinition`: NumLocals of the session only grows. -/
 theorem session_table_monotone (bs : List (String × Nat)) (t : Table) :
     (∀ n sym, lookupSym n t.store = some sym → resolveIn bs t.disabled n [t] = (some sym, [t])) ∧
     (∀ m, ∃ t', (resolveIn bs t.disabled m [t]).2 = [t'] ∧ TableExt t t' ∧ t'.numDefinition = t.numDefinition) ∧
     (∀ n m s, m ≠ n → lookupSym n (putSym m s t.store) = lookupSym n t.store) ∧
-    (∀ n sym (s : CState), s.tables = [t] → lookupSym n t.store = some sym →
+    (∀ n sym (s : CState), s.tables = [t] → lookupSym n t.store = some sym → sym.scope ≠ .builtin →
         (defineLocal n).run.run s = (.ok (sym, true), s)) ∧
     (∀ n, n ∈ t.disabled → lookupSym n t.store = none →
         (resolveIn bs t.disabled n [t]).1 = none ∧
@@ -170,7 +171,7 @@ theorem session_table_monotone (bs : List (String × Nat)) (t : Table) :
     (∀ k r, ∃ t' r', updateMaxDefs k (t :: r) = t' :: r' ∧ t.maxDefinition ≤ t'.maxDefinition ∧
         t'.store = t.store ∧ t'.disabled = t.disabled) := by
   refine ⟨fun n sym h => resolve_bound bs _ n t sym h, ?_, fun n m s h => lookup_putSym_other n m s h _,
-    fun n sym s hs h => defineLocal_existing n s t sym hs h, ?_, ?_⟩
+    fun n sym s hs h hb => defineLocal_existing n s t sym hs h hb, ?_, ?_⟩
   · intro m
     obtain ⟨t', h1, h2, h3, h4, _, h6⟩ := resolve_keeps bs t.disabled m t
     exact ⟨t', h1, ⟨h6, h2, by omega⟩, h4⟩
